@@ -162,7 +162,10 @@ func propC17(o *out, r *rng, thorough bool) {
 		"SELECT top(value, host, 3), \"Default\" FROM \"sHoW\".\"rp\".cpu WHERE \"From\" = 1", "sHoW mEaSuReMeNtS", "CREATE USER \"Default\" WITH PASSWORD 'secret'", "SET PASSWORD FOR u = 'pw'",
 		"SELECT count(DISTINCT v1) FROM cpu WHERE time >= '2000-01-01T00:00:00Z' AND time < '2000-01-02' TZ('UTC')",
 		// wildcard expansion over one measurement with explicit tag dimensions (the schema's maps are shared by all goroutines)
-		"SELECT * FROM cpu GROUP BY host", "SELECT *, value FROM cpu GROUP BY region, time(1m)", "SELECT mean(*) FROM cpu GROUP BY host, region", "SELECT /a/ FROM cpu GROUP BY *"} {
+		"SELECT * FROM cpu GROUP BY host", "SELECT *, value FROM cpu GROUP BY region, time(1m)", "SELECT mean(*) FROM cpu GROUP BY host, region", "SELECT /a/ FROM cpu GROUP BY *",
+		// statements of other kinds whose sources or names a privilege or name query might be tempted to fill in
+		"SHOW SERIES EXACT CARDINALITY ON db0 FROM cpu, rp1.mem", "SHOW TAG VALUES CARDINALITY ON db0 FROM cpu WITH KEY = host", "SHOW MEASUREMENT CARDINALITY ON db0 FROM /c/", "DELETE FROM cpu WHERE host = 'a'",
+		"SHOW FIELD KEYS ON db0 FROM cpu, mem", "EXPLAIN ANALYZE SELECT mean(v) FROM (SELECT v FROM cpu WHERE time > now() - 1h)", "SELECT mean(v) FROM (SELECT v FROM cpu WHERE time > now() - 1h GROUP BY time(1m, now()))"} {
 		texts = append(texts, t)
 	}
 	texts = append(texts, loadCorpus("statements.json")...)
@@ -179,7 +182,7 @@ func propC17(o *out, r *rng, thorough bool) {
 	corpus := filepath.Join(o.dir, "corpus.txt")
 	must(os.WriteFile(corpus, []byte(strings.Join(texts, "\n")+"\n"), 0o644))
 	o.extra["corpus_statements"] = len(texts)
-	for _, t := range texts[:13] {
+	for _, t := range texts[:20] {
 		o.sample(t)
 		o.nontrivial(t)
 	}
